@@ -11,8 +11,11 @@
  *     (c P (K*) P) try { P } catch (e in K*) { P }              — filter arity 0…4
  *     (f P)        P in a callee frame;  (d N P)  P called through N frames
  * or `L a b c f1 f2 f3` (three lexically nested blocks in one C function).
+ * Filters may name one object several times (kinds are taken modulo NKINDS): since fix a0ef2da exception_catch walks its
+ * filter by index, so such a filter terminates and matches by membership like any other.
  * Each program runs in a forked child under alarm() (an uncaught exception exits the process, an overflow of the jump
- * buffer array aborts it, a filter that lists an object twice makes exception_catch loop for ever).  The child streams
+ * buffer array aborts it; before fix a0ef2da a filter that listed an object twice made exception_catch loop for ever —
+ * that now shows as end=hang, which the oracle reports as an ordinary violation).  The child streams
  * its events through a pipe; the parent prints
  *   O trace=<events> end=<normal|fatal|abort|hang|signal|other> depth=<len(current(Exception)) after, or - >
  * and checks the direct oracle (a reference interpreter of structured exceptions, written here independently of the
@@ -131,20 +134,12 @@ static void run_lexical(int a, int b, int c, int f1, int f2, int f3) {
 }
 
 /* ---- direct oracle: reference interpreter (structured exceptions), independent of the Lean model ----
-   Exceptions are kinds 0…NKINDS-1.  Besides the reference outcome it records where the run enters the territory of the
-   known finding KF-C07-filter-dup (a filter that lists an object twice is asked about an exception outside its
-   duplicate-free prefix) and where the nesting would exceed EXCEPTION_MAX_DEPTH. */
+   Exceptions are kinds 0…NKINDS-1; a filter matches an exception iff it is empty or lists it (any number of times).
+   Besides the reference outcome it records where the nesting would exceed EXCEPTION_MAX_DEPTH. */
 static char obuf[1 << 16]; static size_t olen;
-static long o_dup_at, o_over_at;   /* trace length at the first such point, -1 = never */
+static long o_over_at;   /* trace length at the first such point, -1 = never */
 static int o_stop;
 static void oemit(char c, int n) { if (!o_stop) olen += snprintf(obuf + olen, sizeof obuf - olen, "%c%d,", c, n); }
-static int in_dupfree_prefix(Node* n, int r) {  /* is r among the items the identity walk visits before it cycles? */
-  for (int i = 0; i < n->nfilt; i++) {
-    for (int j = 0; j < i; j++) if (n->filt[j] % NKINDS == n->filt[i] % NKINDS) return 0;  /* item i repeats: the walk cycles from here */
-    if (n->filt[i] % NKINDS == r) return 1;
-  }
-  return -1;  /* duplicate-free filter, r not in it */
-}
 static int oeval(Node* n, int x, size_t depth) { /* returns -1 = completed, else the escaping kind */
   if (o_stop) return -1;
   switch (n->kind) {
@@ -158,7 +153,6 @@ static int oeval(Node* n, int x, size_t depth) { /* returns -1 = completed, else
       if (depth >= EXCEPTION_MAX_DEPTH) { if (o_over_at < 0) o_over_at = (long)olen; o_stop = 1; return -1; }
       int r = oeval(n->a, x, depth + 1); if (r < 0 || o_stop) return -1;
       int m = n->nfilt == 0; for (int i = 0; i < n->nfilt; i++) if (n->filt[i] % NKINDS == r) m = 1;
-      if (n->nfilt > 0 && in_dupfree_prefix(n, r) == 0 && o_dup_at < 0) o_dup_at = (long)olen;
       if (!m) return r;
       oemit('h', r); return oeval(n->b, r, depth);
     }
@@ -245,7 +239,7 @@ int main(int argc, char** argv) {
          (correspondence), refuted in Lean (C07_throw_null_refuted, C07_bad_message_refuted), not judged here */
       n_ood++; continue;
     }
-    olen = 0; obuf[0] = 0; o_dup_at = -1; o_over_at = -1; o_stop = 0;
+    olen = 0; obuf[0] = 0; o_over_at = -1; o_stop = 0;
     int esc = oeval(prog, 0, 0);
     if (o_over_at >= 0) {
       /* the nesting does not fit: exception_try must abort at that block, nothing after the events so far */
@@ -256,20 +250,17 @@ int main(int argc, char** argv) {
       continue;
     }
     static char full[1 << 16]; memcpy(full, obuf, olen + 1); strip_comma(full);
-    int as_reference = strcmp(full, tbuf) == 0 && strcmp(end, esc < 0 ? "normal" : "fatal") == 0;
-    if (!as_reference && o_dup_at >= 0 && strcmp(end, "hang") == 0) {
-      static char pre[1 << 16]; memcpy(pre, obuf, o_dup_at); pre[o_dup_at] = 0; strip_comma(pre);
-      if (strcmp(pre, tbuf) == 0) {
-        n_dup++;
-        X("sig=KF-C07-filter-dup line=%zu what=a catch filter that lists an object twice was asked about an exception outside its duplicate-free prefix: exception_catch never returned (events so far [%s]); block structure wants [%s] end=%s", li + 1, tbuf, full, esc < 0 ? "normal" : "fatal");
-        continue;
-      }
+    if (dupf) n_dup++;
+    if (strcmp(end, "hang") == 0) {
+      X("sig=exn-hang line=%zu what=the program did not end within the time limit%s (events so far [%s]); block structure wants [%s] end=%s", li + 1,
+        dupf ? " — a catch filter names one object twice: exception_catch must walk it to its end and match by membership" : "", tbuf, full, esc < 0 ? "normal" : "fatal");
+      continue;
     }
     if (strcmp(full, tbuf) != 0) X("sig=exn-trace line=%zu what=handlers/statements differ from block structure: got [%s] want [%s]", li + 1, tbuf, full);
     if (esc < 0 && strcmp(end, "normal") != 0) X("sig=exn-end line=%zu what=program without escaping exception ended %s", li + 1, end);
     if (esc >= 0 && strcmp(end, "fatal") != 0) X("sig=exn-end line=%zu what=uncaught exception did not terminate with failure status (ended %s)", li + 1, end);
     if (esc >= 0 && !strstr(ebuf, "Uncaught")) X("sig=exn-diag line=%zu what=no diagnostic for uncaught exception", li + 1);
   }
-  I("programs=%zu out_of_domain=%zu dup_filter_hangs=%zu overflow=%zu", nprog, n_ood, n_dup, n_over);
+  I("programs=%zu out_of_domain=%zu dup_filter=%zu overflow=%zu", nprog, n_ood, n_dup, n_over);
   return 0;
 }
